@@ -142,6 +142,7 @@ impl Monitors {
                         Action::Finish { ok, .. } => 7 + *ok as u64,
                         Action::Advance { .. } => 9,
                         Action::ArmLaunchFail { .. } => 10,
+                        Action::AgeWorker { .. } => 17,
                         Action::Req { .. } => 11,
                         Action::AnswerFlush => 12,
                         Action::AnswerPrune => 13,
